@@ -14,7 +14,7 @@ REG = json.load(open(os.path.join(HOME, 'lean', 'registry.json')))
 TRANSLATED = {
     'C01': '_generate_transition_count_matrix, row_normalize_matrix', 'C11': '_generate_transition_count_matrix and the md event / pathway kernels',
     'C05': 'the five dynamical-coring kernels', 'C06': 'the five event / waiting-time / pathway kernels and _intersect',
-    'C07': '_propagate_MCMC_step, _propagate_MCMC', 'C08': '_estimate_waiting_times, _estimate_transition_times (msm)',
+    'C07': '_propagate_MCMC_step, _propagate_MCMC, _get_cummat', 'C08': '_estimate_waiting_times, _estimate_transition_times (msm), _get_cummat',
     'C13': '_intersect, _intersect_array, _compare_trajs_symmetric, _compare_trajs_directed',
     'C14': 'is_quadratic, is_transition_matrix, is_ergodic, is_fuzzy_ergodic, ergodic_mask',
     'C04': 'is_ergodic, ergodic_mask, row_normalize_matrix', 'C03': 'LumpedStateTraj._estimate_markov_model (Hummer-Szabo projection), row_normalize_matrix, is_ergodic',
